@@ -33,8 +33,31 @@ MIN_DECIDING = {"quick": 15, "thorough": 200}
 NCASES = {"quick": 110, "thorough": 2000}
 
 
+def designed_cases(seed, tier):
+    """geometric loops with a state-independent continuation probability 1-q and growth factor a: the exit moments of x diverge
+    iff a**k * (1-q) >= 1; both sides of the boundary are generated"""
+    from ..lang.parser import parse_program
+    out = []
+    n = 10 if tier == "quick" else 120
+    for j in range(n):
+        cs = K.harness_seed(seed, ID + "-geo", j)
+        r = random.Random(cs)
+        q = r.choice([Fraction(1, 2), Fraction(1, 3), Fraction(3, 4), Fraction(1, 4)])
+        a = r.choice([1, 2, 2, 3, Fraction(3, 2), Fraction(1, 2)])
+        c = r.choice([0, 1, 1])
+        text = (f"stop = 0\nx = 1\nsteps = 0\nwhile stop == 0:\n    stop = Bernoulli({q})\n    x = {a}*x + {c}\n    steps = steps + 1\nend\n")
+        prog = parse_program(text)
+        pv = program_variables(prog)
+        inits = {v: Fraction(r.randint(1, 9), 7) for v in pv}
+        goals = [{"x": 1}, {r.choice(["x", "steps"]): 1}]
+        kinds = [r.choice(["E", "c2", "k2"]), r.choice(["c2", "k2", "k3", "E"])]
+        out.append({"id": f"geo-{cs}", "text": text, "ast": prog.to_json(), "params": {}, "inits": K.frac_enc(inits), "goals": goals, "kinds": kinds,
+                    "N": 6, "K": 30 if tier == "quick" else 50, "features": ["designed:geometric-exit", f"growth*continue={'>=1' if a * (1 - q) >= 1 else '<1'}"]})
+    return out
+
+
 def generate(seed, tier):
-    cases = []
+    cases = designed_cases(seed, tier)
     for i in range(NCASES[tier]):
         cs = K.harness_seed(seed, ID, i)
         rng = random.Random(cs)
